@@ -69,4 +69,23 @@ PROPS = {
             "requests whose captures are not convertible for every matching rule are skipped for completeness (property precondition)",
         ],
     },
+    "C16": {
+        "pkg": "c16",
+        "stages": [{"run": "^TestProp$", "quick": (4000, 4), "thorough": (60000, 16)}],
+        "technique": "property-based testing (rapid): grammar-derived valid templates, single-edit mutants, selector/field-path/collision faults, classified by an independent EBNF parser; before/after probe differential for rejected registrations",
+        "level_text": "Generated-input search over rules registered onto empty and populated muxes; the required verdict comes from a reference "
+                      "parser written from the documented EBNF plus descriptor resolution; rejected registrations must leave a recorded probe set unchanged. Exploration only.",
+        "level_note": "Trusts harness/ref.ParseTemplate; shapes on which the EBNF and google's prose disagree are only checked for absence of panics (registration and serving).",
+        "rule": "rapid draws a base rule set (empty or 1-4 conflict-free methods) with probe requests, and a new method whose rule is: a valid "
+                "grammar-derived template set (incl. one-character, dotted, hyphenated literals, nested fields, verbs), a single-edit mutant, a "
+                "field-path fault, a body/response_body selector (valid/unknown/non-message), nested additional_bindings, a collision with a "
+                "base binding, the same binding twice, or a re-declaration of its implicit path; supplied as annotation, service config or both. "
+                "Oracle: valid => nil error and an instantiated path routes to the method; invalid => error, no panic, probes unchanged; contested "
+                "=> no panic at registration or serving. Non-trivial = anything but a variable-free, verb-free valid template; distinct = (kind, "
+                "verdict, template shapes, channel, mux emptiness, reason).",
+        "assumptions": [
+            "contested shapes (nested variables, '**' not last, literals/verbs not starting with a letter, '*' kind overlapping another method's specific verb, non-message body selectors, variables on non-scalar fields) are not asserted either way",
+            "routing of an accepted rule is not asserted for paths that a base rule also matches",
+        ],
+    },
 }
